@@ -52,8 +52,9 @@ impl QBNumberCast<i32> for f32 {
 impl QBNumberCast<i64> for f32 {
     fn try_cast(&self) -> Result<i64, LintError> {
         if self.is_finite() {
-            let r = self.round();
-            if r >= (MIN_LONG as Self) && r <= (MAX_LONG as Self) {
+            // compare as f64, because MAX_LONG is not exactly representable as f32
+            let r = (*self as f64).round();
+            if r >= (MIN_LONG as f64) && r <= (MAX_LONG as f64) {
                 Ok(r as i64)
             } else {
                 Err(LintError::Overflow)
@@ -66,7 +67,13 @@ impl QBNumberCast<i64> for f32 {
 
 impl QBNumberCast<f32> for f64 {
     fn try_cast(&self) -> Result<f32, LintError> {
-        Ok(*self as f32)
+        let r = *self as f32;
+        if self.is_finite() && !r.is_finite() {
+            // too big for a single
+            Err(LintError::Overflow)
+        } else {
+            Ok(r)
+        }
     }
 }
 
